@@ -324,9 +324,15 @@ def k_audit_named(f, rng):
     return Exp(r"Audits must always be named 'audit.'", "row", row=r)
 
 
-@kind("trigger-not-a-reference", 1)
+@kind("trigger-not-a-reference", 3)
 def k_trigger_nonref(f, rng):
-    r = add_row_somewhere(f, rng, Row("q", pick(rng, ["calculate", "text", "integer"]), fresh(f, "trg"), {"label": "L", "calculation": "1 + 1", "trigger": pick(rng, ["abc", "1", "today()"])}))
+    qs = [x.name for x, _ in f.walk() if x.kind == "q" and base_type(x) in ("text", "integer", "decimal")]
+    vals = ["abc", "1", "today()"]
+    if qs:
+        # a reference plus anything else is not "a reference to another question" either; accepted, such a cell used to lose the calculation without a word
+        a, b = pick(rng, qs), pick(rng, qs)
+        vals += ["${%s}, ${%s}" % (a, b), "${%s} ${%s}" % (a, b), "${%s} + 1" % a, "x ${%s}" % a, "${%s}${%s}" % (a, b)]
+    r = add_row_somewhere(f, rng, Row("q", pick(rng, ["calculate", "text", "integer"]), fresh(f, "trg"), {"label": "L", "calculation": "1 + 1", "trigger": pick(rng, vals)}))
     if r.type == "calculate":
         r.cells.pop("label")
     return Exp(r"Only references to other fields are allowed in the 'trigger' column", "row", row=r)
